@@ -1,5 +1,5 @@
 (* sx interface of the two-database model (RuleDB/Model.v).
-   input  = [ [root; iterative; fallback]; empty bits; strats; pack order; classes by label; steps ]
+   input  = [ [root; iterative; fallback (; verified)]; empty bits; strats; pack order; classes by label; steps ]
      strats as in Searcher/Run.v (dec_strat); pack order = strategy ids in the order of
      StrategyPack.__iter__ (initial, ver, inferral, symmetries, expansion sets)
      step   = [ nlab; cached emptiness by label (-1 unknown / 0 / 1), BEFORE the call;
@@ -8,8 +8,18 @@
      reset = 1: both databases are emptied before this call (a logged rule sequence fed again, in
      another order, to fresh databases)
      reps   = equivdb[label] by label after connect_cycles ([] = has_specification not asked)
-     fallback = 0: RecomputingDict.__getitem__ replays the pack on the classes of the key only (the code as
-     it is); 1: then on every other label (the repair of findings/forget_foreign_parent.patch.diff)
+     COMPATIBLE EXTENSION (is_verified in the compared output): when the 4th header flag `verified` is 1, a step may
+     carry two more fields  envA; envB = the calls the REST of the program (the searcher's own has_specification())
+     made on the equivalence database of the default / the memory-saving database since the previous add, oldest
+     first: [5; label] set_verified, [7] connect_cycles (the environment's move, like the class database of the
+     step); the model keeps the two equivalence databases as states of the C06 model (Equiv/Model.v), applies
+     envA / envB and then the calls THIS add makes (b_eq), and each output entry gets one more element after the
+     cached emptiness:  [ is_verified(l) for every label l of the class database after the add, default database;
+     the same, memory-saving database ]  (2 in place of a list = the C06 model ran out of fuel: never).  The
+     is_verified calls themselves are made on a copy (the harness restores the real database as well).
+     fallback = 1: RecomputingDict.__getitem__ replays the pack on the classes of the key and then on every other
+     label (the code as it is since fix 59cdf67, rec_getitem_all; what the harness sends); 0: on the classes of
+     the key only (the code before that fix, rec_getitem)
    Both databases start empty and receive every add, each time on the class database
    of the step (what the searcher did to it in between is the environment's move).
    output = one entry per step:
@@ -27,6 +37,7 @@
 From Coq Require Import ZArith List Bool.
 From CSS Require Import Base.Sx Base.PyList ClassDB.Model Searcher.Model Searcher.Run RuleDB.Model.
 From CSS Require Searcher.DecidersRun.
+From CSS Require Equiv.Model.
 Import ListNotations.
 Open Scope Z_scope.
 
@@ -84,15 +95,48 @@ Definition enc_optb (o : option bool) : sx :=
 Definition rep_of (reps : list Z) (l : Z) : Z :=
   if l <? 0 then l else nth (Z.to_nat l) reps l.
 
+(* ---- the equivalence database (C06 model) fed with the calls of add and of the environment ---- *)
+Definition op_of_eqcall (c : eqcall) : Equiv.Model.op :=
+  match c with
+  | EqVerified l => Equiv.Model.SetVerified l
+  | EqEdge true a b => Equiv.Model.TwoWay a b
+  | EqEdge false a b => Equiv.Model.OneWay a b
+  end.
+(* the calls made on the equivalence database so far, oldest first, as operations of the C06 model *)
+Definition eq_ops (calls_newest_first : list eqcall) : list Equiv.Model.op := map op_of_eqcall (rev calls_newest_first).
+Definition dec_env (s : sx) : list Equiv.Model.op :=
+  map (fun c => let a := sx_Zs c in
+                if nth 0 a 0 =? 5 then Equiv.Model.SetVerified (nth 1 a 0) else Equiv.Model.Connect) (sx_list s).
+Definition eq_apply (e : option Equiv.Model.db) (ops : list Equiv.Model.op) : option Equiv.Model.db :=
+  match e with
+  | None => None
+  | Some s => Equiv.Model.run_state Equiv.Model.isort s ops
+  end.
+(* [ruledb.is_verified(l) for l in range(n)], each call on the state the previous one left *)
+Fixpoint verified_from (s : Equiv.Model.db) (l : Z) (n : nat) : option (list Z) :=
+  match n with
+  | O => Some []
+  | S m => match Equiv.Model.is_verified s l with
+           | None => None
+           | Some (s1, v) => match verified_from s1 (l + 1) m with
+                             | None => None
+                             | Some r => Some ((if v then 1 else 0) :: r)
+                             end
+           end
+  end.
+Definition enc_verified (e : option Equiv.Model.db) (n : nat) : sx :=
+  match e with
+  | None => I 2
+  | Some s => match verified_from s 0 n with Some r => of_Zs r | None => I 2 end
+  end.
+
 Section Run.
 Variable T : table.
 Variable pack : list Z.
 Variable classes : list Z.
-Variables (root : Z) (iterative fallback : bool).
+Variables (root : Z) (iterative fallback withver : bool).
 
-(* range(len(classdb)) minus the labels of the key *)
-Definition other_labels (d : cdbT) (k : key) : list Z :=
-  filter (fun l => negb (mem l (fst k :: snd k))) (map Z.of_nat (seq 0 (length (ClassDB.Model.classes d)))).
+(* other_labels (range(len(classdb)) minus the labels of the key): RuleDB/Model.v *)
 
 (* the rule re-applied is two-way (asked for what the equivalence store hands back) *)
 Definition two_way_again (d : cdbT) (sid : Z) (k : key) : bool :=
@@ -114,8 +158,9 @@ Definition lookups (only_equiv : bool) (ds : dstore) (rs : rstore_t) (d : cdbT) 
            of_bool (match g with GOk sid _ => repro only_equiv d' sid k | _ => false end) ])
      (sorted_keys (d_keys ds))).
 
-Definition run_step (st : dbst dstore * dbst rstore_t * list sx) (s : sx) : dbst dstore * dbst rstore_t * list sx :=
-  let '(a, b, acc) := st in
+Definition run_step (st : dbst dstore * dbst rstore_t * (option Equiv.Model.db * option Equiv.Model.db) * list sx) (s : sx)
+  : dbst dstore * dbst rstore_t * (option Equiv.Model.db * option Equiv.Model.db) * list sx :=
+  let '(a, b, (ea, eb), acc) := st in
   let d := mk_cdb classes (sx_nat (sx_nth s 0)) (sx_Zs (sx_nth s 1)) in
   let '(start, ends, r) := dec_rule (sx_nth s 2) in
   let reset := sx_bool (sx_nth s 7) in
@@ -124,6 +169,13 @@ Definition run_step (st : dbst dstore * dbst rstore_t * list sx) (s : sx) : dbst
   let a1 := dict_add T a0 start ends r in
   let b1 := rec_add T b0 start ends r in
   let neq := (length (b_eq dstore a1) - length (b_eq dstore a0))%nat in
+  let neqb := (length (b_eq rstore_t b1) - length (b_eq rstore_t b0))%nat in
+  let ea0 := if reset then Some Equiv.Model.init else ea in
+  let eb0 := if reset then Some Equiv.Model.init else eb in
+  let ea1 := if withver then eq_apply ea0 (dec_env (sx_nth s 8) ++ eq_ops (firstn neq (b_eq dstore a1))) else ea0 in
+  let eb1 := if withver then eq_apply eb0 (dec_env (sx_nth s 9) ++ eq_ops (firstn neqb (b_eq rstore_t b1))) else eb0 in
+  let nl := length (ClassDB.Model.classes (b_cdb dstore a1)) in
+  let ver := if withver then [L [enc_verified ea1 nl; enc_verified eb1 nl]] else [] in
   let nst := (length (b_stop dstore a1) - length (b_stop dstore a0))%nat in
   let base :=
     [ I (b_stat dstore a1);
@@ -147,7 +199,7 @@ Definition run_step (st : dbst dstore * dbst rstore_t * list sx) (s : sx) : dbst
         L [ hs (sx_Zs (sx_nth s 5)) (d_keys (b_r dstore a1)) (d_keys (b_e dstore a1));
             hs (sx_Zs (sx_nth s 6)) (r_keys (b_r rstore_t b1)) (r_keys (b_e rstore_t b1)) ] ]
     else [] in
-  (a1, b1, L (base ++ full) :: acc).
+  (a1, b1, (ea1, eb1), L (base ++ ver ++ full) :: acc).
 
 End Run.
 
@@ -157,13 +209,19 @@ Definition run_c14 (inp : sx) : sx :=
   let pack := sx_Zs (sx_nth inp 3) in
   let classes := sx_Zs (sx_nth inp 4) in
   let d0 := mk_cdb classes 0 [] in
-  let '(_, _, acc) :=
-    fold_left (run_step T pack classes (nth 0 h 0) (negb (nth 1 h 0 =? 0)) (negb (nth 2 h 0 =? 0)))
-              (sx_list (sx_nth inp 5)) (dict_init d0, rec_init d0, []) in
+  let '(_, _, _, acc) :=
+    fold_left (run_step T pack classes (nth 0 h 0) (negb (nth 1 h 0 =? 0)) (negb (nth 2 h 0 =? 0)) (negb (nth 3 h 0 =? 0)))
+              (sx_list (sx_nth inp 5)) (dict_init d0, rec_init d0, (Some Equiv.Model.init, Some Equiv.Model.init), []) in
   (* compatible extension: a 7th input field ( ver-sids sym-sids queue-pack packets ) (Searcher/DecidersRun.v) makes
      the run append ONE more element to its output: the verdict of the deciders of Searcher/Deciders.v (the table
      hypotheses of C14_search_stored_rules_handed_back) on the table this run received; without it nothing is added *)
-  match sx_list (sx_nth inp 6) with
+  (* ... and, when the header flag `verified` is set as well, one more element after it: fpack_coversb (the pack
+     hypothesis of C14_search_stored_rules_handed_back_x_decided) for the pack order this run replays *)
+  let h6 := sx_nth inp 6 in
+  match sx_list h6 with
   | [] => L (rev acc)
-  | _ => L (rev acc ++ [Searcher.DecidersRun.run_hyps (t_empty T) (t_strats T) [] (sx_nth inp 6)])
+  | _ => L (rev acc ++ [Searcher.DecidersRun.run_hyps (t_empty T) (t_strats T) [] h6] ++
+            (if nth 3 h 0 =? 0 then []
+             else [of_bool (fpack_coversb (mkT (t_empty T) (t_strats T) (sx_Zs (sx_nth h6 0)) (sx_Zs (sx_nth h6 1)))
+                                          (sx_Zs (sx_nth h6 2)) pack)]))
   end.
